@@ -18,7 +18,11 @@ import (
 func c01Short(v JV) string {
 	s := v.json()
 	if len(s) > 60 {
-		s = s[:60] + "…"
+		cut := 60
+		for cut > 0 && s[cut]&0xC0 == 0x80 { // do not split a UTF-8 sequence
+			cut--
+		}
+		s = s[:cut] + "…"
 	}
 	return s
 }
@@ -85,8 +89,13 @@ func c01SrcAt(d *Defs, doc JV, path string) string {
 	node := doc
 	desc := []string{}
 	resolve := func(s *Src) *Src {
-		for i := 0; i < 20 && s != nil && s.Kind == SRef; i++ {
-			s = d.lookup(s.Ref)
+		// looks through references and through the element wrapper (nullable T)
+		for i := 0; i < 20 && s != nil && (s.Kind == SRef || s.Kind == SNullable); i++ {
+			if s.Kind == SNullable {
+				s = s.Elem
+			} else {
+				s = d.lookup(s.Ref)
+			}
 		}
 		return s
 	}
@@ -199,6 +208,12 @@ func c01SrcAt(d *Defs, doc JV, path string) string {
 	}
 	var leaf func(s *Src, depth int) string
 	leaf = func(s *Src, depth int) string {
+		for i := 0; i < 20 && s != nil && s.Kind == SRef; i++ {
+			s = d.lookup(s.Ref)
+		}
+		if s != nil && s.Kind == SNullable {
+			return leaf(s.Elem, depth) + "?" // nullable element
+		}
 		r := resolve(s)
 		if r == nil {
 			return "?"
